@@ -1250,7 +1250,7 @@ func c07R9(c *Ctx, r *Report, rule string) {
 // (RFC 7301): crypto/tls offers and selects them by exact comparison. MatchALPN.Match is evaluated on configured
 // lists x offered lists: it matches exactly when some configured id equals some offered id byte for byte.
 func c07ALPN(c *Ctx, r *Report, rule string) {
-	r.rule(rule, "alpn sub-matcher (evaluation of MatchALPN.Match on configured x offered protocol lists, ids differing in case, prefix and order included): matches exactly when a configured id equals an offered id byte for byte, as crypto/tls compares them", 8)
+	r.rule(rule, "alpn sub-matcher (evaluation of MatchALPN.Match on configured x offered protocol lists, ids differing in case, prefix and order included): matches exactly when a configured id - placeholders in it resolved - equals an offered id byte for byte, as crypto/tls compares them", 8)
 	fnName := "modules/l4tls.(*MatchALPN).Match"
 	fn := c.Fn(fnName)
 	if fn == nil {
@@ -1270,12 +1270,27 @@ func c07ALPN(c *Ctx, r *Report, rule string) {
 		{[]string{"h2"}, nil},
 		{nil, []string{"h2"}},
 		{[]string{"acme-tls/1"}, []string{"ACME-TLS/1"}},
+		// configured ids given as placeholders are compared as resolved ({env.L4_PROTO} = h2, {env.L4_EMPTY} = "")
+		{[]string{"{env.L4_PROTO}"}, []string{"h2"}},
+		{[]string{"{env.L4_PROTO}"}, []string{"http/1.1"}},
+		{[]string{"x-{env.L4_PROTO}"}, []string{"x-h2"}},
+		{[]string{"{env.L4_EMPTY}", "h2"}, []string{"h2"}},
+		{[]string{"{env.L4_PROTO}"}, []string{"{env.L4_PROTO}"}},
+	}
+	alpnEnv := func(key string) (string, bool) {
+		switch key {
+		case "env.L4_PROTO":
+			return "h2", true
+		case "env.L4_EMPTY":
+			return "", true
+		}
+		return "", false
 	}
 	for _, cs := range cases {
 		want := false
 		for _, a := range cs.cfg {
 			for _, b := range cs.offered {
-				if a == b {
+				if caddyReplace(a, "", true, alpnEnv) == b {
 					want = true
 				}
 			}
@@ -1301,6 +1316,8 @@ func c07ALPN(c *Ctx, r *Report, rule string) {
 				return symNil(), true
 			case strings.HasSuffix(callee, "caddy/v2.NewReplacer"):
 				return symRef("repl", false), true
+			case strings.HasSuffix(callee, "Replacer).ReplaceAll") && len(args) == 3 && args[1].K == "str" && args[1].Known && args[2].K == "str" && args[2].Known:
+				return symStr(caddyReplace(args[1].S, args[2].S, true, alpnEnv)), true
 			}
 			return inner(callee, args, ev, st)
 		}
